@@ -27,6 +27,8 @@ func genSetup(t *rapid.T) vk.AsyncSetup {
 	if !s.ViaRefresh {
 		s.Second = rapid.Bool().Draw(t, "second")
 		s.Restart = rapid.IntRange(0, 2).Draw(t, "restart") == 0
+		s.FromNone = rapid.IntRange(0, 2).Draw(t, "fromNone") == 0
+		s.RefsOrder = rapid.IntRange(0, 2).Draw(t, "refsOrder")
 	}
 	// initial occupancy: empty ... full (+1 for the in-flight slot)
 	switch rapid.IntRange(0, 3).Draw(t, "occ") {
@@ -46,7 +48,7 @@ func genActions(t *rapid.T) []vk.AsyncAction {
 	n := rapid.IntRange(1, 40).Draw(t, "nactions")
 	var a []vk.AsyncAction
 	for i := 0; i < n; i++ {
-		a = append(a, vk.AsyncAction{K: rapid.SampledFrom([]string{"ev", "ev", "raw", "step", "dis", "ev", "raw", "raw0", "evl", "rawL"}).Draw(t, "a")})
+		a = append(a, vk.AsyncAction{K: rapid.SampledFrom([]string{"ev", "ev", "raw", "step", "dis", "ev", "raw", "raw0", "evl", "rawL", "evP", "ev0"}).Draw(t, "a")})
 	}
 	return a
 }
@@ -129,12 +131,12 @@ func TestC04_Controlled(t *testing.T) {
 		if res.HasRestricted {
 			var wantRaw []int64
 			for _, id := range res.Delivered {
-				if res.RawIDs[id] {
+				if res.RawIDs[id] || res.HighIDs[id] {
 					wantRaw = append(wantRaw, id)
 				}
 			}
 			if !eq(res.Restricted, wantRaw) {
-				t.Fatalf("VERIF-VIOLATION C04: the appender reference with range [ERROR,MAX) received %d items %v; it must receive exactly the delivered raw writes %v (every submitted event is INFO)\n%s", len(res.Restricted), tailIDs(res.Restricted), tailIDs(wantRaw), desc)
+				t.Fatalf("VERIF-VIOLATION C04: the appender reference with range [ERROR,MAX) received %d items %v; it must receive exactly the delivered raw writes and PANIC events %v (every other submitted event is below ERROR)\n%s", len(res.Restricted), tailIDs(res.Restricted), tailIDs(wantRaw), desc)
 			}
 		}
 		if setup.Second && !eq(res.Delivered, res.Delivered2) {
